@@ -9,7 +9,10 @@ rsync -a --exclude /.git --exclude /_build "${VERIF_REPO_BASE:-/repo}/" "$W/src/
 if [ -f "$D/patch.diff.gz" ]; then gunzip -c "$D/patch.diff.gz" > "$W/patch.diff"; else cp "$D/patch.diff" "$W/patch.diff"; fi
 ( cd "$W/src" && git init -q && git apply --whitespace=nowarn "$W/patch.diff" ) || ( cd "$W/src" && patch -p1 -s < "$W/patch.diff" ) || { echo "patch does not apply" > "$D/result.txt"; rm -rf "$W"; exit 2; }
 rm -rf "$W/src/.git"
-VERIF_REPO="$W/src" VERIF_OUT="$W/out" tools/runall.sh "$TIER" > "$D/result.txt" 2>&1
+# the checks run from a snapshot of the committed /verif (so that work in progress in the live directory cannot leak into the result)
+mkdir -p "$W/verif" && git archive HEAD | tar -x -C "$W/verif"
+git rev-parse --short HEAD > "$D/verif_commit.txt"
+( cd "$W/verif" && VERIF_REPO="$W/src" VERIF_OUT="$W/out" tools/runall.sh "$TIER" ) > "$D/result.txt" 2>&1
 # keep the details of anything that was reported
 for f in "$W"/out/replays/*/*.json; do [ -f "$f" ] && { mkdir -p "$D/alarms"; cp "$f" "$D/alarms/$(basename $(dirname $f))-$(basename $f)"; }; done
 rm -rf "$W"
